@@ -33,7 +33,7 @@ def gen(r, n):
         s1 = r.choice(SIGS)
         t1 = r.choice([1.5, 2.5])
         grace = r.choice([0, 2, 3])
-        on_term = r.choice(["exit", "ignore", "ignore", ("late", 0.5)])
+        on_term = r.choice(["exit", "ignore", "ignore", ("late", 0.5), ("late_ok", 0.5)])
         sigs = [(t1, s1)]
         if r.random() < 0.4:
             sigs.append((t1 + 1, r.choice(SIGS)))
